@@ -7,6 +7,7 @@ Oracle: data(i) returns exactly chunk i's slice of the content with its declared
 bytes, irrespective of the prefix; equivalently the result of a request equals that of the same request on a fresh
 context.
 """
+PROMOTE = True   # quick runs the former thorough bound (seconds); thorough goes deeper where a deeper bound is defined (ctx.deep)
 import core, zckref, universe
 from universe import Cfg
 
@@ -33,9 +34,10 @@ def expected(base, pieces, cfg):
 
 
 def work(arg):
-    name, base, pieces, cfg, depth, seqs = arg
+    name, base, pieces, cfg, depth, seqs = arg[:6]
+    extra = arg[6] if len(arg) > 6 else 0
     exp, n = expected(base, pieces, cfg)
-    job = "file %s\nnchunks %d\ndepth %d\n" % (base.hex(), n, depth) + "".join("seq %s\n" % s for s in (seqs or []))
+    job = "file %s\nnchunks %d\ndepth %d\nextra %d\n" % (base.hex(), n, depth, extra) + "".join("seq %s\n" % s for s in (seqs or []))
     cs = core.drv("chunkreq", job, timeout=3000)
     res = {"n": 0, "req": 0, "viol": [], "revisit": 0, "outcomes": set()}
     for c in cs:
@@ -47,10 +49,17 @@ def work(arg):
         res["n"] += 1
         ops = q["seq"].split(",")
         outs = q["res"].split(";")
-        if len(set(ops)) < len(ops) or ("d%d" % (n - 1)) in ops[:-1] or ("s%d" % (n - 1)) in ops[:-1]:
+        if len(set(ops)) < len(ops) or ("d%d" % (n - 1)) in ops[:-1] or ("s%d" % (n - 1)) in ops[:-1] or any(o[0] not in "ds" for o in ops[:-1]):
             res["revisit"] += 1
         for k, (op, o) in enumerate(zip(ops, outs)):
             res["req"] += 1
+            if op[0] not in "ds":
+                # history operation (sequential read, validation): reported, not judged here.  If it left the context in
+                # error state (a sequential read that follows a chunk request has no defined position) every later call is
+                # refused by design: nothing behind it is judged
+                if not o.endswith("e0"):
+                    break
+                continue
             if ":" not in o:
                 ret, data = o, b""
             else:
@@ -62,8 +71,9 @@ def work(arg):
             if not good:
                 kind = "data" if op[0] == "d" else "stored"
                 which = "dictionary" if op[1:] == "0" else ("last" if int(op[1:]) == n - 1 else "middle")
-                first = "first-request" if k == 0 else "after-" + ("same-chunk" if ops[k - 1][1:] == op[1:] else
-                                                                   ("last-chunk" if int(ops[k - 1][1:]) == n - 1 else "other-chunk"))
+                prev = ops[k - 1] if k else None
+                first = "first-request" if k == 0 else "after-" + ("read-or-scan" if prev[0] not in "ds" else "same-chunk" if prev[1:] == op[1:] else
+                                                                   ("last-chunk" if int(prev[1:]) == n - 1 else "other-chunk"))
                 res["viol"].append(({"check": "C14", "predicate": "wrong-result", "request": kind, "chunk": which, "history": first,
                                      "comp": cfg.comp, "dict": bool(cfg.dict)},
                                     "%s: sequence %s: request #%d (%s) returned %s with %d bytes; expected %d bytes %s" % (
@@ -80,7 +90,13 @@ def run(ctx):
     ctx.bounds = {"files": [b[0] for b in bs], "depth": depth, "alphabet": "data(i), stored(i) for every chunk incl. dictionary and last"}
     ctx.rule = ("case = request sequence replayed on a fresh context; non-trivial = sequence that revisits a chunk or continues "
                 "after the last chunk was requested")
-    for r in core.pmap(work, [(n, b, p, c, depth, None) for n, b, p, c in bs]):
+    # second family: the alphabet extended by history operations on the same context (sequential reads of 1 and 40 bytes,
+    # validate-checksums, find-valid-chunks); their own results are not judged, every chunk request still is
+    xdepth = 3 if not ctx.deep else 4
+    jobs = [(n, b, p, c, depth if not (ctx.deep and len(p) == 3) else 5, None, 0) for n, b, p, c in bs]
+    jobs += [(n, b, p, c, xdepth, None, 1) for n, b, p, c in bs if len(p) == 3 or ctx.deep]
+    ctx.bounds["with_history_operations"] = {"depth": xdepth, "operations": "read 1, read 40, validate-checksums, find-valid-chunks"}
+    for r in core.pmap(work, jobs):
         ctx.states += r["n"]; ctx.evaluations += r["n"]; ctx.transitions += r["req"]; ctx.nontrivial += r["revisit"]
         ctx.outcomes |= r["outcomes"]
         for sig, what, case in r["viol"]:
@@ -93,5 +109,5 @@ def replay(case, quiet=True):
     if "pieces" not in case:
         return {"violated": True, "detail": "crash case"}
     cfg = Cfg(case["cfg"][0], bytes.fromhex(case["cfg"][1]), case["cfg"][2], case["cfg"][3], case["cfg"][4])
-    r = work(("replay", base, [bytes.fromhex(x) for x in case["pieces"]], cfg, 0, [case["seq"]]))
+    r = work(("replay", base, [bytes.fromhex(x) for x in case["pieces"]], cfg, 0, [case["seq"]], 1))
     return {"violated": bool(r["viol"]), "detail": [v[1] for v in r["viol"]]}
